@@ -1,5 +1,6 @@
 """concat area — `pna concat` and `pna split` + `pna concat` of the real binary against coq/Model/Concat.v,
-at the level of the BYTES of the files (coq/Model/ConcatRun.v ops `concat`, `splitcat`).
+at the level of the BYTES of the files (coq/Model/ConcatRun.v ops `concat`, `splitcat`; the input of `splitcat` is a
+part chain: `pna split` follows the parts of its input since repo commit f4d9f833).
 
 `step(c)` generates archives through libpna (harness `mkarchive`: plain / solid / mixed / encrypted /
 encrypted-solid, rich metadata, unknown ancillary and private chunks in entries and on solid entries),
@@ -19,6 +20,11 @@ Oracles on the implementation alone (independent of the model):
     an archive): the exit status is not 0 and no complete archive is left at the output path;
   * split + concat: every part is at most the requested size, the parts read as a chain, the result decodes to the
     original's content and its chunk sequence is the original's up to the cutting of FDAT/SDAT payloads.
+  * split of a part chain (`pna split <part 1 of a part set written by an earlier pna split / pna create --split>`, also
+    damaged chains and a chain entered at a later part): when the chain the command can reach reads to a successful end
+    the raw entries of the result are the raw entries of the input chain (up to the cutting of FDAT/SDAT payloads: no
+    entry dropped, the entry straddling a part boundary whole) and with a generous size the command succeeds; when it
+    does not, the exit status is not 0.
 A case line carries the bytes of every file and, as a last field the model ignores, the commands that were run;
 `python3 -m props._concat <replay file>` re-creates the files of the first `case:` line in a sandbox, runs the
 commands again and prints what happens."""
@@ -26,7 +32,7 @@ import os, random, shutil, struct, subprocess, sys, zlib
 from vlib import cli, core
 from props import _xform as X
 
-RUNS = {"quick": 60, "thorough": 1500}
+RUNS = {"quick": 75, "thorough": 1875}    # per five runs: three concat, one split+concat of a file, one of a part chain
 _built = False
 
 
@@ -394,6 +400,126 @@ def splitcat_case(rnd, sb, d, hist):
     return case, outcome, msgs
 
 
+def out_parts(sp):
+    """the files `pna split --out-dir sp` wrote, in part order (a single part keeps the name of the input)"""
+    names = sorted(os.listdir(sp)) if os.path.isdir(sp) else []
+    def num(nm):
+        last = nm[:-4].rpartition(".")[2]
+        return int(last[4:]) if last.startswith("part") and last[4:].isdigit() else 0
+    return [os.path.join(sp, nm) for nm in sorted(names, key=num)]
+
+
+def part_set(rnd, sb, d, hist):
+    """a part set on disk: written by `pna split` from a libpna archive, or by `pna create --split` from a small tree;
+    returns the part paths (possibly one), or None"""
+    path = os.path.join(d, "a.pna")
+    if rnd.random() < 0.3:
+        tree = os.path.join(d, "t")
+        cli.gen_tree(rnd, tree, max_files=4, symlinks=False)
+        opts = rnd.choice([[], ["--solid"], ["--store"], ["--aes=ctr", "--password=" + X.PW, "--pbkdf2=r=1"]])
+        r = cli.run_pna(["--quiet", "create", path, "-r", "t", "--split=%d" % rnd.choice([120, 200, 400, 1000])] + opts, cwd=d, timeout=120)
+        shutil.rmtree(tree, ignore_errors=True)
+        if r["rc"] != 0:
+            return None, "create--split"
+        if os.path.isfile(path):
+            return [path], "create--split"
+        parts, k = [], 1
+        while os.path.isfile(with_part(path, k)):
+            parts.append(with_part(path, k)); k += 1
+        return parts or None, "create--split"
+    fresh_archive(rnd, path, max_entries=4)
+    r, parts = split_real(sb, path, rnd.choice([90, 100, 120, 150, 200, 300]))
+    if r["rc"] != 0 or not parts:
+        for q in parts:
+            os.remove(q)
+        return [path], "split"
+    os.remove(path)
+    return parts, "split"
+
+
+def splitchain_case(rnd, sb, d, hist):
+    """`pna split <a part of a part set>`: the command follows the chain from the file it is given"""
+    parts, origin = part_set(rnd, sb, d, hist)
+    if not parts:
+        parts = [os.path.join(d, "a.pna")]
+        fresh_archive(rnd, parts[0], max_entries=3)
+    first, label = parts[0], "chain:%d" % len(parts)
+    roll = rnd.random()
+    if roll >= 0.5 and len(parts) >= 2:
+        kind = rnd.choice(["missing_last", "missing_middle", "swapped", "enter_at_2", "enter_at_last", "stale_extra", "truncated", "altered", "other_number"])
+        label = kind
+        if kind == "missing_last":
+            os.remove(parts[-1])
+        elif kind == "missing_middle" and len(parts) >= 3:
+            os.remove(parts[rnd.randint(1, len(parts) - 2)])
+        elif kind == "swapped" and len(parts) >= 3:
+            i = rnd.randint(1, len(parts) - 2)
+            a, b = rd(parts[i]), rd(parts[i + 1])
+            wr(parts[i], b); wr(parts[i + 1], a)
+        elif kind == "enter_at_2":
+            first = parts[1]          # with_part(2) of part 2 is part 2 itself: the number check applies to it
+        elif kind == "enter_at_last":
+            first = parts[-1]         # no successor announced: the (headless) chunks of the last part alone are copied
+        elif kind == "stale_extra":
+            wr(with_part(parts[0], len(parts) + 1), rd(parts[0]))
+        elif kind == "truncated":
+            i = rnd.randint(0, len(parts) - 1)
+            b = rd(parts[i])
+            wr(parts[i], b[:rnd.randint(0, len(b) - 1)])
+        elif kind == "altered":
+            i = rnd.randint(0, len(parts) - 1)
+            b = bytearray(rd(parts[i]))
+            k = rnd.randint(0, len(b) - 1)
+            b[k] ^= 1 << rnd.randint(0, 7)
+            wr(parts[i], bytes(b))
+        elif kind == "other_number":  # the second part carries another number
+            cs, tail = scan(rd(parts[1]))
+            wr(parts[1], assemble([ahed(rnd.choice([0, 1, 3, 7]))] + cs[1:], tail))
+        else:
+            label = "chain:%d" % len(parts)
+    hist["splitchain:" + origin + ":" + label.split(":")[0]] = hist.get("splitchain:" + origin + ":" + label.split(":")[0], 0) + 1
+    chain = chain_of(first)
+    mx = rnd.choice([40, 52, 60, 80, 100, 128, 150, 200, 256, 400, 1000, 100000, 100000])
+    sp = os.path.join(d, "sp")
+    # --overwrite: with one output part the command renames sp/<name>.part1.pna to sp/<name of the input>, which for an
+    # input called x.part1.pna is that very file and counts as "already exists" without the flag
+    r = cli.run_pna(["split", first, "--max-size", str(mx), "--out-dir", sp, "--overwrite"], cwd=sb.root)
+    cmds = "pna split %s --max-size %d --out-dir sp --overwrite; pna concat cat.pna sp/<first part> [%s, %s]" % (os.path.basename(first), mx, origin, label)
+    case = "splitcat\t%d\t%s\t%s" % (mx, hexchain(chain) if chain else "-", cmds)
+    msgs = []
+    ie, iend = rawdump(chain) if chain else ([], "ERR NotFound")
+    if r["rc"] != 0:
+        if r["rc"] == 101 or r["timeout"]:
+            msgs.append("pna split panicked or hung")
+        if iend == "OK" and mx == 100000:
+            msgs.append("pna split fails on a part chain that reads to a successful end (generous size)")
+        return case, X.err_kind(r), msgs
+    if iend != "OK":
+        msgs.append("pna split succeeded although the part chain of its input does not read to a successful end (%s)" % iend)
+    outs = out_parts(sp)
+    if not outs:
+        msgs.append("pna split succeeded and wrote no file")
+        return case, "OK |", msgs
+    cat = os.path.join(d, "cat.pna")
+    r2 = cli.run_pna(["concat", cat, outs[0]], cwd=sb.root)
+    if r2["rc"] != 0:
+        msgs.append("pna concat fails on the parts `pna split` wrote from a part chain")
+        return case, X.err_kind(r2), msgs
+    outcome = "OK %s|%s" % (hexchain(outs), rd(cat).hex())
+    if any(os.path.getsize(q) > mx for q in outs):
+        msgs.append("pna split wrote a part larger than --max-size")
+    pe, pend = rawdump(outs)
+    ce, cend = rawdump([cat])
+    flat = lambda es: merge([c for e in es for c in entry_chunks(e)])
+    if iend == "OK":
+        if pend != "OK" or len(pe) != len(ie) or flat(pe) != flat(ie):
+            msgs.append("pna split of a part chain: the raw entries of the result are not the raw entries of the input chain "
+                        "(%d entries in, %d out, %s)" % (len(ie), len(pe), pend))
+        if cend != "OK" or ce != pe:
+            msgs.append("split of a part chain + concat: the raw entries of the concatenation differ from those of the parts")
+    return case, outcome, msgs
+
+
 def step(c, tier=None, seed=None, runs=None):
     tier = tier or c.tier
     rnd = random.Random((seed if seed is not None else c.seed) * 104729 + 17)
@@ -405,7 +531,7 @@ def step(c, tier=None, seed=None, runs=None):
         for i in range(n):
             d = sb.path("c%d" % i)
             os.makedirs(d)
-            case, outcome, msgs = (splitcat_case if i % 4 == 3 else concat_case)(rnd, sb, d, hist)
+            case, outcome, msgs = (splitcat_case if i % 5 == 3 else splitchain_case if i % 5 == 4 else concat_case)(rnd, sb, d, hist)
             if msgs:
                 oracle[len(cases)] = msgs
             cases.append(case); outcomes.append(outcome)
@@ -452,18 +578,23 @@ def replay(path):
             else:
                 print("  out.pna: not created")
         else:
-            src = os.path.join(d, "a.pna")
-            wr(src, bytes.fromhex(f[2]))
-            r = cli.run_pna(["split", src, "--max-size", f[1], "--out-dir", os.path.join(d, "sp")], cwd=sb.root)
-            print("pna split a.pna --max-size %s -> rc %s %s" % (f[1], r["rc"], r["err"].decode("utf-8", "replace").strip()[:300]))
-            first = os.path.join(d, "sp", "a.part1.pna")
-            first = first if os.path.isfile(first) else os.path.join(d, "sp", "a.pna")
-            parts = chain_of(first)
+            hexes = [] if f[2] == "-" else f[2].split(",")
+            # a chain is re-created under the names part 1, 2, ...: for a chain entered at a later part (the file itself
+            # found again as its own successor) see the commands at the end of the case line
+            src = os.path.join(d, "a.pna" if len(hexes) <= 1 else "a.part1.pna")
+            for j, h in enumerate(hexes):
+                wr(src if j == 0 else with_part(src, j + 1), bytes.fromhex(h))
+            r = cli.run_pna(["split", src, "--max-size", f[1], "--out-dir", os.path.join(d, "sp"), "--overwrite"], cwd=sb.root)
+            print("pna split %s --max-size %s -> rc %s %s" % (os.path.basename(src), f[1], r["rc"], r["err"].decode("utf-8", "replace").strip()[:300]))
+            parts = out_parts(os.path.join(d, "sp"))
+            first = parts[0] if parts else ""
+            es, e = rawdump(chain_of(src))
+            print("  input chain: %d raw entries, %s" % (len(es), e))
             print("  parts: %s" % [os.path.getsize(p) for p in parts])
             if parts:
                 r = cli.run_pna(["concat", os.path.join(d, "cat.pna"), first], cwd=sb.root)
                 print("pna concat cat.pna %s -> rc %s" % (os.path.basename(first), r["rc"]))
-                for nm, ps in (("a.pna", [src]), ("parts", parts), ("cat.pna", [os.path.join(d, "cat.pna")])):
+                for nm, ps in (("parts", parts), ("cat.pna", [os.path.join(d, "cat.pna")])):
                     es, e = rawdump(ps)
                     print("  %s: %d raw entries, %s" % (nm, len(es), e))
 
